@@ -143,6 +143,23 @@ def m_c02(out) -> list[Violation]:
             vs.append(Violation(
                 what=f"stage {ref} task {t} was started {n} times in loop iteration {it}",
                 signature=f"start-twice:{ref}:{t}", replay=_replay(out)))
+    # (a') the tasks of a stage run one after the other: task t+1 starts only when task t is complete (outside jump
+    #      loops, whose stale task messages are the known F10 family)
+    has_jump = any(str(step).startswith("jump") for sp in spec_map(out).values() for steps in sp.get("tasks", []) for step in steps)
+    if not has_jump:
+        tstat = {}
+        for row in out["audit"]:
+            if row["kind"] != "task":
+                continue
+            ref, t = task_of(out, row["ent"])
+            if row["old"] == "NOT_STARTED" and row["new"] == "RUNNING" and t is not None and t > 0:
+                prev = tstat.get((ref, t - 1), "NOT_STARTED")
+                if prev not in COMPLETE:
+                    vs.append(Violation(
+                        what=f"task {t} of stage {ref} started while task {t - 1} of the same stage was {prev}",
+                        signature=f"task-out-of-order:{ref}", replay=_replay(out)))
+                    break
+            tstat[(ref, t)] = row["new"]
     # (b) re-execution after a recorded result
     done = {}     # task key -> list of (seq when completed)
     task_resets = {}
